@@ -184,9 +184,9 @@ of an empty bi-interval is.  The pinned text runs the loop (every size is `occ(l
 text with an early exit for empty intervals (seeded change C06-H1) returns the interval itself. -/
 
 /-- what the sweep needs of the extension `x` of the empty interval `iv`: no panic, empty again, bounds kept -/
-def DeadOk (iv : Bi) (B : Nat) (x : Res BiT) : Prop :=
+def DeadOk (iv : Bi) (B : Nat) (pl pr : Prop) (x : Res BiT) : Prop :=
   match x with
-  | .ok r => r.2.2.1 = 0 ∧ 1 ≤ r.1 ∧ r.1 ≤ B ∧ 1 ≤ r.2.1 ∧ r.2.1 ≤ B ∧ r.2.2.2 = iv.matchSize + 1
+  | .ok r => r.2.2.1 = 0 ∧ (pl → 1 ≤ r.1) ∧ r.1 ≤ B ∧ (pr → 1 ≤ r.2.1) ∧ r.2.1 ≤ B ∧ r.2.2.2 = iv.matchSize + 1
   | _ => False
 
 theorem extLoop_dead (occF : Nat → Nat → Nat) (iv : Bi) (a : Nat) (h0 : iv.size = 0) (hl : iv.lower ≠ 0) :
@@ -213,9 +213,9 @@ theorem sum_sOf_dead (occF : Nat → Nat → Nat) (iv : Bi) (h0 : iv.size = 0) (
 /-- `backward_ext` of an empty interval with non-zero bounds `≤ B` -/
 theorem backward_ext_dead (lessF : Nat → Nat) (occF : Nat → Nat → Nat) (iv : Bi) (a N B : Nat)
     (h0 : iv.size = 0) (hl : 1 ≤ iv.lower) (hlB : iv.lower ≤ B) (hr : 1 ≤ iv.lowerRev) (hrB : iv.lowerRev ≤ B)
-    (hB : B < 2 ^ 64) (hN : ∀ r b, occF r b ≤ N) (hless : 1 ≤ lessF a) (hk : lessF a + N ≤ B)
+    (hB : B < 2 ^ 64) (hN : ∀ r b, occF r b ≤ N) (hk : lessF a + N ≤ B)
     (hms : iv.matchSize + 1 < 2 ^ 64) :
-    DeadOk iv B (SrcFmdExt.backward_ext lessF occF (toT iv) a) := by
+    DeadOk iv B (1 ≤ lessF a) True (SrcFmdExt.backward_ext lessF occF (toT iv) a) := by
   have hl0 : iv.lower ≠ 0 := by omega
   have hm : OccMono occF iv order := by
     intro b _
@@ -242,10 +242,10 @@ theorem backward_ext_dead (lessF : Nat → Nat) (occF : Nat → Nat → Nat) (iv
 /-- `forward_ext` of an empty interval with non-zero bounds `≤ B` -/
 theorem forward_ext_dead (lessF : Nat → Nat) (occF : Nat → Nat → Nat) (iv : Bi) (a N B : Nat)
     (h0 : iv.size = 0) (hl : 1 ≤ iv.lower) (hlB : iv.lower ≤ B) (hr : 1 ≤ iv.lowerRev) (hrB : iv.lowerRev ≤ B)
-    (hB : B < 2 ^ 64) (hN : ∀ r b, occF r b ≤ N) (hless : 1 ≤ lessF (dnaCompl a)) (hk : lessF (dnaCompl a) + N ≤ B)
+    (hB : B < 2 ^ 64) (hN : ∀ r b, occF r b ≤ N) (hk : lessF (dnaCompl a) + N ≤ B)
     (hms : iv.matchSize + 1 < 2 ^ 64) :
-    DeadOk iv B (SrcFmdExt.forward_ext lessF occF dnaCompl (toT iv) a) := by
-  have hb := backward_ext_dead lessF occF (swapped iv) (dnaCompl a) N B h0 hr hrB hl hlB hB hN hless hk hms
+    DeadOk iv B True (1 ≤ lessF (dnaCompl a)) (SrcFmdExt.forward_ext lessF occF dnaCompl (toT iv) a) := by
+  have hb := backward_ext_dead lessF occF (swapped iv) (dnaCompl a) N B h0 hr hrB hl hlB hB hN hk hms
   have s1 := swapped_eq_model iv
   unfold DeadOk at hb
   split at hb
@@ -256,8 +256,9 @@ theorem forward_ext_dead (lessF : Nat → Nat) (occF : Nat → Nat → Nat) (iv 
     simp only [swapped] at hb
     obtain ⟨hb1, hb2, hb3, hb4, hb5, hb6⟩ := hb
     simp only [SrcFmdExt.forward_ext, toT_1, toT_2, toT_3, toT_4, s1, hr'', s2, Res.ok_bind, Res.pure_eq_ok, bind_pure_comp, pure_bind, map_pure]
+    have hb4' := hb4 trivial
     simp [DeadOk, toT, swapped, hb1, hb6]
-    omega
+    refine ⟨?_, ?_, ?_, ?_⟩ <;> first | omega | exact hb2 | exact hb4 | (intro; omega)
   · exact absurd hb id
 
 end RbV.Thm.GenSrcFmdExt
